@@ -46,7 +46,7 @@ DESCRIPTION = {
         "deterministic in (script, metadata): the fault dimension is small - the hash seed, and in 30% of the runs an earlier analysis on the same provider object that was aborted by a bad statement after registering tables; provider stalls/failures and thread interleavings are decided under C12",
     ],
     "required_probes": {
-        "quick": ["chain_consumed", "wildcard_from_session", "unqualified_resolved_by_session", "end_at_intermediate", "session_lookup_hit", "paths_compared", "after_aborted_run"],
+        "quick": ["chain_consumed", "wildcard_from_session", "unqualified_resolved_by_session", "end_at_intermediate", "session_lookup_hit", "paths_compared", "after_aborted_run", "recreated_by_ctas_or_view"],
         "thorough": ["chain_consumed", "wildcard_from_session", "unqualified_resolved_by_session", "end_at_intermediate", "session_lookup_hit", "paths_compared"],
     },
 }
@@ -166,7 +166,7 @@ def run_one(spec: dict) -> dict:
             probe("after_aborted_run")
     tapmod.set_tap(tap)
     try:
-        runner = LineageRunner(";\n".join(script), **kwargs)
+        runner = LineageRunner(";\n".join(script) + (";" if spec.get("trailing_semicolon") else ""), **kwargs)
         observed = {tuple(str(c) for c in p) for p in runner.get_column_lineage(exclude_subquery_columns=True)}
         err = None
     except Exception as e:
@@ -220,7 +220,10 @@ def run_one(spec: dict) -> dict:
             viol = viol or {"class": "session_register_wrong", "message": f"statement {i} registered {len(regs)} times: {regs}"}
         # judged for the statement that first defines the table in this script (re-definition of a table whose
         # columns are already known - earlier in the script or to the provider - is not described by the property)
-        first_definition = a["target"] not in model and (a["target"] not in base or a["kind"] in ("ctas", "view"))
+        first_definition = (a["target"] not in model and (a["target"] not in base or a["kind"] in ("ctas", "view"))) or \
+            (spec.get("shape") == "recreate" and a["kind"] in ("ctas", "view"))
+        if a["target"] in model and first_definition:
+            probe("recreated_by_ctas_or_view")
         if first_definition and a["target"] in base:
             probe("shadows_provider_table")
         # (an explicit column list combined with a wildcard select is a single-statement question - how one
@@ -272,7 +275,8 @@ def run_one(spec: dict) -> dict:
     model = {}
     for i, a in enumerate(annot):
         if (in_use and a["kind"] in CREATING and a["star"] and len(a["srcs"]) == 1 and a["srcs"][0] in model and a["kind"] != "insert_cols"
-                and a["target"] not in model and (a["target"] not in base or a["kind"] in ("ctas", "view"))):
+                and ((a["target"] not in model and (a["target"] not in base or a["kind"] in ("ctas", "view")))
+                     or (spec.get("shape") == "recreate" and a["kind"] in ("ctas", "view")))):
             T, W = a["srcs"][0], a["target"]
             want = sorted([f"{T}.{c}", f"{W}.{c}"] for c in model[T])
             got = sorted([p[0], p[1]] for p in stmt_pairs[i])
@@ -372,6 +376,44 @@ def execute(arg):
 # ---------------------------------------------------------------------------
 
 
+def gen_recreate(g, seed, ps, base, dialect) -> dict:
+    """A table is created, read, RE-created by CTAS / CREATE VIEW with other columns, and read again - possibly by
+    the very same statement text.  Re-creation by CTAS / CREATE VIEW defines the table anew (latest definition wins)."""
+    tag = f"k{seed % 1000}"
+    srcs = sorted(BASE_META)
+    b1, b2 = g.sample(srcs, 2)
+    T, V, W = g.sample(UNIVERSE, 3)
+    A = [f"c_{tag}_a{i}" for i in range(g.choice([1, 2]))]
+    B = [f"c_{tag}_b{i}" for i in range(g.choice([1, 2, 3]))]
+    mk = lambda kind, t, cols, b: (f"CREATE {'TABLE' if kind == 'ctas' else 'VIEW'} {t} AS SELECT " + ", ".join(f"{g.choice(BASE_META[b])} AS {c}" for c in cols) + f" FROM {b}")
+    k1, k3 = g.choice(["ctas", "view"]), g.choice(["ctas", "view"])
+    s1 = mk(k1, T, A, b1)
+    s3 = mk(k3, T, B, b2)
+    reader_kind = g.choice(["view", "ctas", "insert"])
+    star = g.random() < 0.7
+
+    def reader(cols, tgt):
+        sel = "*" if star else ", ".join(cols)
+        head = {"view": f"CREATE VIEW {tgt} AS", "ctas": f"CREATE TABLE {tgt} AS", "insert": f"INSERT INTO {tgt}"}[reader_kind]
+        return f"{head} SELECT {sel} FROM {T}"
+
+    verbatim = star and g.random() < 0.6  # the same statement text twice (only possible when it does not name columns)
+    s2 = reader(A, V)
+    s4 = s2 if verbatim else reader(B, V if g.random() < 0.5 else W)
+    tgt4 = V if verbatim else (V if f" {V} " in s4 + " " else W)
+    in_use = ps is not None
+    ann = lambda kind, t, out, srcs_, st: {"kind": kind, "target": t, "out": out, "srcs": srcs_, "star": st, "wild": st}
+    rk = {"view": "view", "ctas": "ctas", "insert": "insert"}[reader_kind]
+    annot = [ann(k1, T, list(A), [b1], False), ann(rk, V, list(A) if (not star or in_use) else None, [T], star),
+             ann(k3, T, list(B), [b2], False), ann(rk, tgt4, list(B) if (not star or in_use) else None, [T], star)]
+    script = [s1, s2, s3, s4]
+    if reader_kind == "insert" and tgt4 == V:
+        # a second INSERT into an existing table accumulates rather than defines: not judged (out unknown)
+        annot[3]["out"] = None
+    return {"seed": seed, "script": script, "annot": annot, "provider": ps, "dialect": dialect, "shape": "recreate",
+            "trailing_semicolon": g.random() < 0.8}
+
+
 def gen(seed) -> dict:
     g = stream(seed, "gen")
     r = g.random()
@@ -383,6 +425,8 @@ def gen(seed) -> dict:
         ps = {"kind": "sim" if g.random() < 0.6 else "dummy", "meta": meta}
         base = meta
     dialect = g.choice(["ansi", "ansi", "non-validating"])
+    if g.random() < 0.15:
+        return gen_recreate(g, seed, ps, base, dialect)
     sg = ScriptGen(g, f"k{seed % 1000}", known=base, allow_drop_rename=False, allow_cte=g.random() < 0.5)
     sg.strict_subquery_cols = True
     sg.shadow_targets = sorted(base)
@@ -411,7 +455,7 @@ def gen(seed) -> dict:
             continue
         script.append(s)
         annot.append(a)
-    spec = {"seed": seed, "script": script, "annot": annot, "provider": ps, "dialect": dialect}
+    spec = {"seed": seed, "script": script, "annot": annot, "provider": ps, "dialect": dialect, "trailing_semicolon": g.random() < 0.5}
     if g.random() < 0.3:
         g3 = stream(seed, "aborted")
         pre = ScriptGen(g3, f"k{seed % 1000}", known=base, allow_drop_rename=False).script(g3.choice([1, 2, 3]))
